@@ -319,20 +319,21 @@ def main():
     broken = None if pr["ok"] else pr["broken"]
     # the congruence theorem needs C01's fuel monotonicity (coq/C01, owned by another builder): its Props file is checked
     # separately, and a failure located in C01's files is recorded instead of breaking the C05 theorems above
-    pr2 = vlib.proof_stage(PROP, ["C05"], "C05/PropsMono_C05.v")
-    if pr2["ok"]:
-        run.cov["obligations"] += pr2["obligations"]
-        run.cov["discharged"] += pr2["discharged"]
-        run.cov["theorems"] += pr2["theorems"]
-        run.cov["print_assumptions"].update({t: (a if a else ["Closed under the global context"]) for t, a in pr2["axioms"].items()})
-        run.cov["checker_cmd"] += "; same for C05/PropsMono_C05.vo"
-    else:
-        det = (pr2.get("broken") or {}).get("detail") or {}
-        if "C01/" in str(det.get("file")) or "C01" in str(det.get("error", ""))[:300]:
-            run.notes.append({"congruence_theorem_not_checked_this_run": "coq/C01 (fuel monotonicity, other builder) does not build", "detail": det})
-        elif broken is None:
-            broken = pr2["broken"]
-            run.cov["obligations"] += pr2["obligations"]
+    for props_extra in ("C05/PropsMono_C05.v", "C05/PropsDeep_C05.v"):
+      pr2 = vlib.proof_stage(PROP, ["C05"], props_extra)
+      if pr2["ok"]:
+          run.cov["obligations"] += pr2["obligations"]
+          run.cov["discharged"] += pr2["discharged"]
+          run.cov["theorems"] += pr2["theorems"]
+          run.cov["print_assumptions"].update({t: (a if a else ["Closed under the global context"]) for t, a in pr2["axioms"].items()})
+          run.cov["checker_cmd"] += "; same for " + props_extra + "o"
+      else:
+          det = (pr2.get("broken") or {}).get("detail") or {}
+          if "C01/" in str(det.get("file")) or "C01" in str(det.get("error", ""))[:300]:
+              run.notes.append({"congruence_theorem_not_checked_this_run": "coq/C01 (fuel monotonicity, other builder) does not build", "detail": det})
+          elif broken is None:
+              broken = pr2["broken"]
+              run.cov["obligations"] += pr2["obligations"]
     run.cov["proof_wall_s"] = round(time.time() - t_, 1)
     okb, blog = build_model()
     if not okb:
